@@ -24,6 +24,12 @@
                    Hermitian, idempotent, P A = A, P + oP = I, oP A = 0, (I-2P)^2 = I, tr P = n.
                    projx enumerates EVERY matrix with entries in {-1,0,1}+i{-1,0,1} of the
                    one shape in Shapes (all 2x1, all 3x1 ...), proj draws seeded matrices.
+     projhist      the Projection OBJECT over a history of calls (a small state machine, every history
+                   of up to 3 steps): construct from the caller's array, then project / oProject /
+                   reflect / read oQ in any order while the CALLER may overwrite its array in place.
+                   Every value the object returns is computed from the basis as it was at construction
+                   (ProjObjectCoherent): Q and oQ always describe the same subspace, repeated calls
+                   return the same values, the object never writes into the caller's array.
      chord         chordal distance SQUARED, d2 = ||P_A - P_B||_F^2 / 2 (rational): the
                    Frobenius form (calc_chordal_distance, _2) equals the trace form
                    n - tr(P_A P_B) (sum of sin^2 of the principal angles), symmetry, zero and
@@ -77,17 +83,26 @@
                              covariance).
    The call contract of the selectors (LrsvOutcome, PcmOutcome, EigOutcome, WhitenOutcome) is also
    what Trace_Subspace.tla validates recorded calls on random float matrices against.
+     SmwZeroSkipShiftsIndex  update_inv_sum_diag filters the zero elements out of the diagonal BEFORE it
+                             enumerates it, so a non-zero element is applied at the position it has in the
+                             filtered array: wrong whenever a zero precedes a non-zero element
+                             (a seeded regression; refuted by SmwIsInverse).
+     ProjLazyOQFromCallerArray  the Projection object computes its orthogonal projector lazily, at the first
+                             oProject / oQ, from a stored REFERENCE to the caller's array: when the caller has
+                             changed that array in place in between, Q and oQ describe different subspaces
+                             (a seeded regression; refuted by ProjObjectCoherent).
    A further deviation has no flag because only its signature is matched (stated in the
    harness): get_principal_component_matrix truncates the singular values when the input has
    an integer dtype (field `intdtype` of the svd cases asks for that call).               *)
 EXTENDS Integers, Sequences, FiniteSets, TLC, Emit, CMat
 
-CONSTANTS Kind,     \* "projx" "proj" "chord" "chordx" "smw" "conv" "ebn0" "eig" "svd" "gmd" "whiten" "eigrel"
+CONSTANTS Kind,     \* "projx" "proj" "projhist" "chord" "chordx" "smw" "conv" "ebn0" "eig" "svd" "gmd" "whiten" "eigrel"
           Seed,     \* seed of the in-spec LCG
           Lo, Hi,   \* case ids Lo..Hi (disjoint ranges run in separate TLC processes)
           Shapes,   \* sequence of <<rows, cols>>; case id uses Shapes[(id % Len(Shapes)) + 1]
           Alpha,    \* seeded entries have re, im in -Alpha..Alpha
-          Dev       \* [LrsvWideMatrixIndex, PcmWideMatrixShape, WhitenEigNotOrthogonal : BOOLEAN]
+          Dev       \* [LrsvWideMatrixIndex, PcmWideMatrixShape, WhitenEigNotOrthogonal,
+                    \*  SmwZeroSkipShiftsIndex, ProjLazyOQFromCallerArray : BOOLEAN]
 
 VARIABLE kase
 vars == <<kase>>
@@ -214,6 +229,56 @@ ReflectTwice      == IsProj => /\ XMul(kase.rnum, kase.rnum) = IDiag(MRows(kase.
                                /\ XMul(kase.rnum, kase.RM) = IScale(kase.den * kase.den, kase.M)
 ProjRank          == IsProj => MTrace(kase.num) = Gi(MCols(kase.A) * kase.den)
 ProjSplits        == IsProj => XAdd(kase.PM, kase.oPM) = IScale(kase.den, kase.M)
+
+(* ------------------------------------------- the Projection object over a history of calls --- *)
+\* State (fields of kase): A1 = the caller's array at construction, A2 = what the caller may write into the
+\* SAME array later (arr = which content the array holds now), qSrc / oqSrc = the array content the object's
+\* Q / oQ were computed from (0 = not computed yet), hist = the calls so far, ret = what the last call
+\* returned, as "which projector of which content".  The intended object computes both matrices in the
+\* constructor; with Dev.ProjLazyOQFromCallerArray oQ is computed at its first use from the caller's array.
+HistMax == 3
+ProjHistStart(id) ==
+    LET sh == ShapeOf(id)  m == sh[1]  n == sh[2]  mc == McOf(id, m)
+        s  == Stream(id, 4 * m * n + 2 * m * mc + 1)
+        real == Pick(s[Len(s)], 4) = 0
+        A1 == GMat(s, 0, m, n, Alpha, real)
+        A2 == GMat(s, 2 * m * n, m, n, Alpha, real)
+        M  == GMat(s, 4 * m * n, m, mc, 2, real)
+        p1 == ProjND(A1)
+        p2 == ProjND(A2)
+    IN  IF p1.den = 0 \/ p2.den = 0 THEN [valid |-> FALSE]
+        ELSE IF IScale(p2.den, p1.num) = IScale(p1.den, p2.num) THEN [valid |-> FALSE]     \* same subspace: nothing to see
+        ELSE LET o1 == XSub(IDiag(m, p1.den), p1.num)
+                 r1 == XSub(IDiag(m, p1.den), IScale(2, p1.num))
+             IN [valid |-> TRUE, kind |-> "projhist", id |-> id, A1 |-> A1, A2 |-> A2, M |-> M,
+                 den |-> p1.den, num |-> p1.num, onum |-> o1, den2 |-> p2.den, num2 |-> p2.num,
+                 PM |-> XMul(p1.num, M), oPM |-> XMul(o1, M), RM |-> XMul(r1, M),
+                 arr |-> 1, qSrc |-> 1, oqSrc |-> IF Dev.ProjLazyOQFromCallerArray THEN 0 ELSE 1,
+                 hist |-> <<>>, ret |-> [op |-> "construct", src |-> 0]]
+
+ProjHistPick == /\ Kind = "projhist" /\ kase = None
+                /\ \E id \in Lo..Hi : LET r == ProjHistStart(id) IN r.valid /\ kase' = r
+
+\* the caller overwrites its array in place (A[...] = A2); the object is not told
+CallerMutates == /\ kase.arr = 1
+                 /\ kase' = [kase EXCEPT !.arr = 2, !.hist = Append(@, "mutate"), !.ret = [op |-> "mutate", src |-> 0]]
+UsesQ(op)  == kase' = [kase EXCEPT !.hist = Append(@, op), !.ret = [op |-> op, src |-> kase.qSrc]]
+UsesOQ(op) == LET src == IF kase.oqSrc = 0 THEN kase.arr ELSE kase.oqSrc      \* lazily filled from the caller's array
+              IN  kase' = [kase EXCEPT !.oqSrc = src, !.hist = Append(@, op), !.ret = [op |-> op, src |-> src]]
+ProjHistStep == /\ kase.kind = "projhist" /\ Len(kase.hist) < HistMax
+                /\ \/ CallerMutates
+                   \/ UsesQ("project") \/ UsesQ("reflect")
+                   \/ UsesOQ("oProject") \/ UsesOQ("oQ")
+
+IsProjHist == kase.kind = "projhist"
+\* everything the object returns comes from the basis as it was at construction, Q and oQ from the same one
+ProjObjectCoherent == IsProjHist => /\ kase.qSrc = 1
+                                    /\ kase.oqSrc \in {0, kase.qSrc}
+                                    /\ kase.ret.src \in {0, 1}
+ProjHistInputs     == IsProjHist => /\ XAdd(kase.num, kase.onum) = IDiag(MRows(kase.A1), kase.den)
+                                    /\ XMul(kase.num, kase.A1) = IScale(kase.den, kase.A1)
+                                    /\ XMul(kase.num2, kase.A2) = IScale(kase.den2, kase.A2)
+                                    /\ IScale(kase.den2, kase.num) # IScale(kase.den, kase.num2)      \* the mutation matters
 
 (* -------------------------------------------------------------- chordal distance --- *)
 \* tr(P_A P_B) dA dB ; real because both numerators are Hermitian
@@ -361,7 +426,8 @@ SmwStart(id) ==
         real == Pick(s[Len(s)], 3) = 0
         A  == GMat(s, 0, n, n, Alpha, real)
         dt == MDet(A)
-        dd == [i \in 1..n |-> <<1, 2, 3, -2, 5>>[Pick(s[2 * n * n + i], 5) + 1]]
+        \* zeros occur in EVERY position of the diagonal (a zero element leaves the inverse unchanged)
+        dd == [i \in 1..n |-> <<0, 1, 2, 0, 3, -2, 5>>[Pick(s[2 * n * n + i], 7) + 1]]
     IN  IF GIsZero(dt) THEN [valid |-> FALSE]
         ELSE [valid |-> TRUE, kind |-> "smw", id |-> id, A |-> A, dd |-> dd, k |-> 0, num |-> XAdj(A),
               delta |-> dt, inv0 |-> XInv(A), diagk |-> DiagSeqK(dd, 0), expInv |-> XInv(A)]
@@ -371,14 +437,18 @@ SmwPick == /\ Kind = "smw" /\ kase = None
 
 SmwStep == /\ kase.kind = "smw" /\ kase.k < Len(kase.dd)
            /\ LET k  == kase.k + 1
-                  d  == Gi(kase.dd[k])
+                  dv == kase.dd[k]
+                  d  == Gi(dv)
                   X  == kase.num
                   n  == Len(kase.dd)
-                  dl == GAdd(kase.delta, GMul(d, X[k][k]))
+                  \* the pivot position of element k: k itself; with the deviation, its position among the
+                  \* non-zero elements (zeros were filtered out before the enumeration)
+                  pos == IF Dev.SmwZeroSkipShiftsIndex THEN Cardinality({j \in 1..k : kase.dd[j] # 0}) ELSE k
+                  dl == IF dv = 0 THEN kase.delta ELSE GAdd(kase.delta, GMul(d, X[pos][pos]))
               IN  /\ ~GIsZero(dl)
                   /\ kase' = [kase EXCEPT !.k = k, !.delta = dl,
-                        !.num = Fix([i \in 1..n |-> [j \in 1..n |->
-                                    GDiv(GSub(GMul(X[i][j], dl), GMul(d, GMul(X[i][k], X[k][j]))), kase.delta)]]),
+                        !.num = IF dv = 0 THEN X ELSE Fix([i \in 1..n |-> [j \in 1..n |->
+                                    GDiv(GSub(GMul(X[i][j], dl), GMul(d, GMul(X[i][pos], X[pos][j]))), kase.delta)]]),
                         !.diagk = DiagSeqK(kase.dd, k),
                         !.expInv = XInv(XAdd(kase.A, DiagK(kase.dd, k)))]
 
@@ -652,7 +722,7 @@ IsEigRel == kase.kind = "eigrel"
 EigRelInput == IsEigRel => kase.H = XHerm(kase.H) /\ kase.tr >= MRows(kase.H) /\ kase.n \in 1..MRows(kase.H)
 
 (* ------------------------------------------------------------------------ machine --- *)
-Next == Proj \/ Chord \/ ChordX \/ SmwPick \/ SmwStep \/ Conv \/ Eb \/ Eig \/ Svd \/ Gmd \/ Whiten \/ EigRel
+Next == Proj \/ ProjHistPick \/ ProjHistStep \/ Chord \/ ChordX \/ SmwPick \/ SmwStep \/ Conv \/ Eb \/ Eig \/ Svd \/ Gmd \/ Whiten \/ EigRel
 
 \* ACTION_CONSTRAINT: print the case reached by this step (with all expected observables)
 Emit == EmitCase(kase')
